@@ -36,6 +36,10 @@ RULE = ("sweep: one case per (configuration, clause, Z, A) where clause is one o
         "non-trivial = val(unc) whose unc digit count differs from the number of decimals of val, or a [low,high] "
         "range; distinct by string.")
 ASSUMPTIONS = [
+    "table rows are laid out by columns: a value cell is a blank-free token or a bracketed group, and blanks inside "
+    "[low, high] do not change the interval it denotes; a cell that is in none of the documented notations is "
+    "reported as c06:table:unreadable-cell together with what the library serves for it (the clauses that need it "
+    "are skipped, the sweep goes on); a row that cannot be laid out is c06:table:unreadable-row",
     "the table text in periodictable/mass.py, density.py and the numeric literals of constants.py are the specification",
     "table values are compared bit-identically with float(<decimal text>); uncertainties of val(unc) likewise "
     "(unc in units of the last written decimal of val unless unc contains a point)",
@@ -138,23 +142,84 @@ def reload_env(config):
     return st_["table"] if view == "self" else st_[view]
 
 
+class Unreadable(Exception):
+    """An embedded cell the independent reader cannot read in a documented notation (evidence, not a harness error)."""
+
+    def __init__(self, table, z, a, text, sym=None):
+        Exception.__init__(self, "%s %s-%s: %r" % (table, z, a, text))
+        self.table, self.z, self.a, self.text, self.sym = table, z, a, text, sym
+
+    def rowid(self):
+        return "%s row %s%s" % (self.table, self.sym if self.sym else "Z=%s" % self.z, "-%d" % self.a if self.a else "")
+
+    def served(self, table):
+        try:
+            if self.table == "element_densities":
+                return getattr(table, self.sym).density
+            el = table[self.z]
+            if self.table == "isotope_abundance":
+                return el[self.a].abundance
+            return el[self.a].mass if self.a else el.mass
+        except Exception as e:  # noqa
+            return "<%s: %s>" % (type(e).__name__, e)
+
+
+class BadEntry(dict):
+    """Expected record of a row with an unreadable cell: descriptive keys work, numeric keys raise Unreadable."""
+
+    def __init__(self, where, **kw):
+        dict.__init__(self, **kw)
+        self.where = where
+
+    def __getitem__(self, k):
+        if k in ("mass", "unc", "pct"):
+            raise Unreadable(*self.where)
+        return dict.__getitem__(self, k)
+
+
+class DensDict(dict):
+    def _chk(self, k, v):
+        if isinstance(v, tb.Bad):
+            raise Unreadable("element_densities", None, 0, v.text, sym=k)
+        return v
+
+    def __getitem__(self, k):
+        return self._chk(k, dict.__getitem__(self, k))
+
+    def get(self, k, d=None):
+        return self._chk(k, dict.get(self, k, d))
+
+
+def _dens_label(sym):
+    try:
+        return "unknown" if oracle()["dens"].get(sym) is None else "known"
+    except Unreadable:
+        return "unreadable"
+
+
 def oracle():
-    """Expected values from the independent readers (per process)."""
+    """Expected values from the independent readers (per process).  Never raises because of a cell's content:
+    unreadable cells become BadEntry records, rows that cannot be laid out go to O['problems']."""
     if _O:
         return _O
     mt = tb.mass_tables()
-    dens = tb.density_table()
+    problems = list(mt["problems"])
+    dens = DensDict(tb.density_table())
     const = tb.constants()
     iso = {}            # (z, a) -> dict(sym, mass, unc, text)
     nominal = {}        # z -> set of avg texts
     symbol = {}
     for z, sym, a, mtext, avg in mt["isotope_mass"]:
         if (z, a) in iso:
-            raise ValueError("isotope_mass lists %d-%d twice" % (z, a))
-        u = tb.read_unc(mtext)
-        if u["kind"] != "paren":
-            raise ValueError("isotope mass %r" % mtext)
-        iso[(z, a)] = dict(sym=sym, mass=u["value"], unc=u["unc"], text=mtext, hash=u["hash"])
+            problems.append(("isotope_mass", "%d-%s-%d" % (z, sym, a), "nuclide listed twice"))
+            continue
+        try:
+            u = tb.read_unc(mtext)
+            if u["kind"] != "paren":
+                raise ValueError(mtext)
+            iso[(z, a)] = dict(sym=sym, mass=u["value"], unc=u["unc"], text=mtext, hash=u["hash"])
+        except ValueError:
+            iso[(z, a)] = BadEntry(("isotope_mass", z, a, mtext, sym), sym=sym, text=mtext, hash=False)
         nominal.setdefault(z, set()).add(avg)
         symbol.setdefault(z, sym)
     weight = {}         # z -> dict(mass, unc, src, text)
@@ -163,25 +228,41 @@ def oracle():
             sym, text = mt["element_mass"][z]
             src = "element_mass"
         else:
-            if len(nominal[z]) != 1:
-                raise ValueError("isotope_mass rows of Z=%d disagree on the element weight: %r" % (z, nominal[z]))
-            (text,) = nominal[z]
             sym = symbol[z]
             src = "isotope_mass-column"
-        u = tb.read_unc(text)
-        if u["kind"] not in ("paren", "nominal"):
-            raise ValueError("element weight %r" % text)
-        weight[z] = dict(sym=sym, mass=u["value"], unc=u["unc"], src=src + ":" + u["kind"], text=text)
+            text = sorted(nominal[z])[0] if len(nominal[z]) == 1 else " | ".join(sorted(nominal[z]))
+        try:
+            u = tb.read_unc(text)
+            if u["kind"] not in ("paren", "nominal"):
+                raise ValueError(text)
+            weight[z] = dict(sym=sym, mass=u["value"], unc=u["unc"], src=src + ":" + u["kind"], text=text)
+        except ValueError:
+            weight[z] = BadEntry((src.replace("-column", " weight column"), z, 0, text, sym), sym=sym, src=src + ":unreadable", text=text)
     for z in mt["element_mass"]:
         if z not in weight:
-            raise ValueError("element_mass lists Z=%d, which has no isotope" % z)
+            problems.append(("element_mass", "Z=%d" % z, "element has no isotope_mass row"))
     abund = {}          # z -> {a: dict(value, pct, kind, text)}
     for z, (sym, entries) in mt["abundance"].items():
-        vals = {a: tb.read_unc(t) for a, t in entries.items()}
-        total = sum(v["value"] for v in vals.values())
-        abund[z] = {a: dict(pct=100 * v["value"] / total, kind=v["kind"], text=entries[a]) for a, v in vals.items()}
+        vals, bad = {}, None
+        for a, t in entries.items():
+            try:
+                vals[a] = tb.read_unc(t)
+                if vals[a]["kind"] == "missing":
+                    raise ValueError(t)
+            except ValueError:
+                bad = bad or (a, t)
+        if bad is None and entries:
+            total = sum(v["value"] for v in vals.values())
+            if total == 0:
+                bad = (sorted(entries)[0], "all entries zero")
+        if bad is None:
+            abund[z] = {a: dict(pct=100 * v["value"] / total, kind=v["kind"], text=entries[a]) for a, v in vals.items()}
+        else:
+            # the normalisation of the whole element depends on the unreadable cell
+            abund[z] = {a: BadEntry(("isotope_abundance", z, bad[0], bad[1], sym), kind="unreadable", text=entries[a])
+                        for a in entries}
         abund[z]["sym"] = sym
-    _O.update(iso=iso, weight=weight, abund=abund, dens=dens, symbol=symbol,
+    _O.update(iso=iso, weight=weight, abund=abund, dens=dens, symbol=symbol, problems=problems,
               NA=const["avogadro_number"], mn=const["neutron_mass"], mn_unc=const["neutron_mass_unc"])
     return _O
 
@@ -273,8 +354,21 @@ def V(bucket, msg, case):
     return Violation("c06:" + bucket, "[%s] %s" % (case.get("config"), msg), case)
 
 
+def _unreadable(u, case):
+    return V("table:unreadable-cell", "%s: cell %r is not in a documented notation but the library serves %r"
+             % (u.rowid(), u.text, u.served(env(case["config"]))), case)
+
+
 def check_row(ctx, case):
-    """One clause for one nuclide.  case = {kind:'row', config, check, z, a}"""
+    """One clause for one nuclide.  case = {kind:'row', config, check, z, a}.  A clause that needs an unreadable
+    cell reports that cell (one bucket) and is skipped; everything else goes on."""
+    try:
+        _check_row(ctx, case)
+    except Unreadable as u:
+        raise _unreadable(u, case)
+
+
+def _check_row(ctx, case):
     O = oracle()
     table = env(case["config"])
     z, a, what = case["z"], case["a"], case["check"]
@@ -496,6 +590,9 @@ def sweep(ctx, config):
     if numbers != list(range(0, 119)) and numbers != list(range(1, 119)):
         ctx.violation("c06:elements", "[%s] table iterates elements %r" % (config, numbers[:5]),
                       {"kind": "row", "config": config, "check": "weight", "z": 1, "a": 0})
+    for tname, row, why in O["problems"]:
+        ctx.violation("c06:table:unreadable-row", "[%s] %s: row %r cannot be laid out (%s)" % (config, tname, row, why),
+                      {"kind": "row", "config": config, "check": "weight", "z": 1, "a": 0})
     # every row of isotope_mass
     for (z, a), exp in O["iso"].items():
         run("isotope-mass", z, a, ["isotope-mass:" + ("estimated#" if exp["hash"] else "measured")])
@@ -506,7 +603,7 @@ def sweep(ctx, config):
             run("weight", z, 0, ["weight:" + O["weight"][z]["src"]])
         else:
             run("weight", 0, 0, ["weight:neutron"])
-        known = "unknown" if O["dens"].get(el.symbol) is None else "known"
+        known = _dens_label(el.symbol)
         run("density", z, 0, ["density:" + known])
         run("functions", z, 0, ["function-route:element:density-" + known])
         if z and el.ions:
@@ -541,6 +638,13 @@ def sweep(ctx, config):
 
 
 def check_custom(ctx, case):
+    try:
+        _check_custom(ctx, case)
+    except Unreadable as u:
+        raise _unreadable(u, case)
+
+
+def _check_custom(ctx, case):
     """case = {kind:'custom', config, z}: a customised table serves the customised values of element z and its isotopes"""
     O = oracle()
     table = env(case["config"])
